@@ -3,6 +3,7 @@ package main
 import (
 	"fmt"
 	"strings"
+	"sync"
 	"time"
 
 	imap "github.com/emersion/go-imap/v2"
@@ -97,7 +98,9 @@ func runC18(h *H) {
 	h.Rule("real imapclient.Client against a scripted server, for capability sets {IMAP4rev1, +LITERAL-, +LITERAL+, IMAP4rev2, rev1+rev2, +ENABLE UTF8=ACCEPT (enabled or not)}: LOGIN, SELECT, EXAMINE, CREATE, DELETE, RENAME, SUBSCRIBE, UNSUBSCRIBE, STATUS, COPY, MOVE, LIST, SEARCH (string keys) and APPEND (sizes 0, 1, 4095..4097, 5000) with string arguments from the classes {plain, space, quote, backslash, CR, LF, NUL, 8-bit UTF-8, invalid UTF-8, 4096 and 4097 bytes, empty}; the server delays every continuation request (payload before '+' is a violation) and in a second pass refuses every synchronising literal with a tagged NO or BAD [TOOBIG], alternating (any payload byte afterwards is a violation; other commands and the connection must stay usable). Every received command is scanned by an independent tokenizer against the advertised capabilities; the exact bytes of string-only commands are re-derived by the model inside Coq. Non-trivial = the argument needed a literal or 8-bit quoting; distinct by (caps, command, argument).")
 
 	cfgs := []capCfg{{"IMAP4rev1", false}, {"IMAP4rev1 LITERAL-", false}, {"IMAP4rev1 LITERAL+", false}, {"IMAP4rev2", false},
-		{"IMAP4rev1 IMAP4rev2", false}, {"IMAP4rev1 ENABLE UTF8=ACCEPT", false}, {"IMAP4rev1 ENABLE UTF8=ACCEPT", true}, {"IMAP4rev1 ENABLE UTF8=ACCEPT LITERAL+", true}}
+		{"IMAP4rev1 IMAP4rev2", false}, {"IMAP4rev1 ENABLE UTF8=ACCEPT", false}, {"IMAP4rev1 ENABLE UTF8=ACCEPT", true}, {"IMAP4rev1 ENABLE UTF8=ACCEPT LITERAL+", true},
+		// UTF8=ONLY advertised but nothing enabled: 8-bit quoting is still not allowed
+		{"IMAP4rev1 ENABLE UTF8=ONLY", false}, {"IMAP4rev1 ENABLE UTF8=ONLY LITERAL-", false}}
 	strs := []string{"abc", "a b", `a"b`, `a\b`, "a\rb", "a\nb", "a\x00b", "é", "a\xffb", "", strings.Repeat("x", 4096), strings.Repeat("y", 4097), "x\r\nA9 LOGOUT"}
 	if h.Thorough() {
 		strs = append(strs, strings.Repeat("é", 2048), strings.Repeat("é", 2049), "\"", "\\", "\r", "\n", " ", "{5}", "{5+}\r\n")
@@ -356,6 +359,96 @@ func runC18(h *H) {
 			for _, v := range peer.Violations() {
 				h.Fail("literal-sync", v, map[string]interface{}{"caps": cfg, "history": "enable-unauthenticate"})
 			}
+		}
+		withTimeout(3*time.Second, func() { client.Close() })
+		peer.Close()
+	}
+
+	// history: LITERAL+ advertised before LOGIN, the LOGIN OK carries no capability code (so the
+	// client must ask again) and the new capability list, without LITERAL+, arrives late: an
+	// APPEND written in between must not assume the old capabilities
+	{
+		pre := "IMAP4rev1 LITERAL+"
+		post := "IMAP4rev1"
+		peer := newPeer("* OK [CAPABILITY " + pre + "] ready\r\n")
+		loggedIn := false
+		var held []string
+		var hmu sync.Mutex
+		peer.OnCommand = func(p *scriptedPeer, c *peerCmd) {
+			switch {
+			case c.Name == "LOGIN":
+				loggedIn = true
+				p.Send(c.Tag + " OK logged in\r\n")
+			case c.Name == "CAPABILITY" && loggedIn:
+				// answered only after the APPEND has been seen (or after a while)
+				hmu.Lock()
+				held = append(held, c.Tag)
+				hmu.Unlock()
+			case c.Name == "CAPABILITY":
+				p.Send("* CAPABILITY " + pre + "\r\n" + c.Tag + " OK done\r\n")
+			default:
+				p.Send(c.Tag + " OK done\r\n")
+			}
+		}
+		release := func() {
+			hmu.Lock()
+			for _, t := range held {
+				peer.Send("* CAPABILITY " + post + "\r\n" + t + " OK done\r\n")
+			}
+			held = nil
+			hmu.Unlock()
+		}
+		client, _ := peer.dialClient(nil)
+		desc := map[string]interface{}{"history": "LITERAL+ before LOGIN, none after, CAPABILITY reply delayed", "caps_before": pre, "caps_after": post}
+		h.InFlight(desc)
+		if err := client.WaitGreeting(); err != nil {
+			h.Fail("greeting", err.Error(), desc)
+		} else if err := client.Login("u", "p").Wait(); err != nil {
+			h.Fail("command-error:LOGIN", err.Error(), desc)
+		} else {
+			before := len(peer.Commands())
+			done := make(chan struct{})
+			go func() {
+				defer close(done)
+				payload := []byte("Subject: x\r\n\r\nhello\r\n")
+				ac := client.Append("Drafts", int64(len(payload)), nil)
+				ac.Write(payload)
+				ac.Close()
+				ac.Wait()
+			}()
+			// let the APPEND header (and, if the client is wrong, its payload) arrive first
+			time.Sleep(150 * time.Millisecond)
+			release()
+			go func() {
+				for i := 0; i < 40; i++ {
+					time.Sleep(50 * time.Millisecond)
+					release()
+				}
+			}()
+			select {
+			case <-done:
+			case <-time.After(5 * time.Second):
+				var seen []string
+				for _, c := range peer.Commands() {
+					seen = append(seen, c.Tag+" "+c.Name+" "+fmt.Sprint(len(c.Lits)))
+				}
+				desc["peer_saw"] = seen
+				h.Fail("client-hang:APPEND", "APPEND after LOGIN did not return", desc)
+			}
+			for _, c := range peer.Commands()[before:] {
+				if c.Name != "APPEND" {
+					continue
+				}
+				for _, b := range checkLegal(capCfg{post, false}, c) {
+					desc["sent"] = string(c.Raw[:min(len(c.Raw), 100)])
+					h.Fail("illegal-output:"+strings.SplitN(b, ":", 2)[0]+":stale-capabilities", "APPEND written after LOGIN, before the new capability list arrived: "+b, desc)
+				}
+			}
+			h.Eval("stale-caps-after-login")
+			h.Hist("cmd:history-stale-capabilities")
+		}
+		for _, v := range peer.Violations() {
+			h.Fail("literal-sync", v, desc)
 		}
 		withTimeout(3*time.Second, func() { client.Close() })
 		peer.Close()
